@@ -245,6 +245,14 @@ Definition shortest_of (d : dbl) : Z * Z :=
 Definition print_trimmed (bits precision : Z) : str :=
   let d := decode bits in print_trimmed_sd d (shortest_of d) precision.
 
+(* the digits of a bit pattern are in range: at most 17 digits, decimal exponent within the range of binary64 (the hypothesis under which
+   the round-trip and grammar theorems are stated for bit patterns; evaluated by the tie on every generated double) *)
+Definition digits_ok (bits : Z) : bool :=
+  match decode bits with
+  | DFin _ m2 e2 c => let '(k, g) := shortest m2 e2 c in (1 <=? k) && (k <? 10 ^ 17) && (-400 <=? g) && (g <=? 380)
+  | _ => true
+  end.
+
 (* ------------------------------------------------------------------ S: the untrimmed path, printf("%.*f") *)
 Definition round_half_even (n d : Z) : Z :=
   let '(q, r) := Z.div_eucl n d in
